@@ -29,7 +29,7 @@ def cfg(fam, maxentries=6):
 def gen(run):
     thorough = run.tier == "thorough"
     out = []
-    for fam, cap in (("bal-notation", 4000), ("bal-small", 4000)):
+    for fam, cap in (("bal-notation", 4000), ("bal-threedec", 2000), ("bal-small", 4000)):
         r = run.tlc("Balance", cfg(fam), workers=16, timeout=2400)
         cs = r.json
         if not thorough and len(cs) > cap:
